@@ -205,6 +205,7 @@ class Node:
         self.conf = conf
         self.sys_seed = sys_seed
         self.kernel = FakeKernel(world, name)
+        self.kernel.event_attrs = tuple(world.scenario.get('kernel_event_attrs', ()))     # extra attributes on ACQUIRE / EXPIRE events
         self.incarnation = 0
         self.state = 'down'          # down | running | dead
         self.death = None            # (kind, text, traceback) when the daemon died on its own
